@@ -54,6 +54,23 @@ def run_obs_job(pid, env, spec, entry, catmod, expect_raise=None):
                 H.STATS.syntactic += 1
                 job.obligation("syntactic")
                 continue
+            if type(c) is tuple and c[0] == "cong" and len(facts) > 600:
+                # Poseidon-sized paths: when the normal forms differ the solver is not asked to compare two degree-5^68
+                # polynomials; the claim is evaluated at a solver-chosen point instead (inputs distinct and large) by the
+                # concrete replay -- a differing polynomial agrees there with probability < deg/p (Schwartz-Zippel)
+                ins = [v.t for v in job.vals.values()]
+                spread = [ins[i] != ins[j] for i in range(len(ins)) for j in range(i)] + [v > 1000 + 7 * i for i, v in enumerate(ins)]
+                st, m = H.solve(t.path.assume + t.path.pc, spread, job.timeout)
+                job.obligation("sat")
+                if st == "sat":
+                    inputs = H.model_inputs(m, job.vals)
+                    f = job.finding("obs", "claim '%s': normal forms differ; evaluated at %s" % (label, inputs),
+                                    dict(kind="obs", inputs=inputs, label=label))
+                    if f is not None:
+                        f["candidate"] = True
+                else:
+                    job.inconclusive("claim %s: normal forms differ and no evaluation point found" % label)
+                continue
             ct = claim_term(env, c)
             if z3.is_true(z3.simplify(ct)):
                 H.STATS.syntactic += 1
